@@ -206,6 +206,8 @@ def translate(text, ctx, closure_specs=()):
         t = r17_break_value(ctx, t)
     sig, body = r1_signature(ctx, t)
     if ctx.profile in ('unsync', 'sync'):
+        sig = _sub(ctx, 'R4', r'&UnsafeCell<u64>', 'CellRef', sig)
+        sig = _sub(ctx, 'R4', r'&AtomicU64', 'CellRef', sig)
         body = common_state(ctx, body)
         if ctx.profile == 'sync':
             body = sync_atomics(ctx, body)
